@@ -137,6 +137,48 @@ impl FilesystemStoreV2 {
 	}
 }
 
+/// Verification hook H7 (see [`crate::verif`]): the asynchronous API's "take the version now,
+/// execute later" split without an executor, and the size of the lock map.
+#[cfg(feature = "_verif_hooks")]
+impl FilesystemStoreV2 {
+	/// First (synchronous) half of [`KVStore::write`]: `write_async` up to the returned future.
+	///
+	/// [`KVStore::write`]: lightning::util::persist::KVStore::write
+	pub fn verif_begin_write(
+		&self, primary_namespace: &str, secondary_namespace: &str, key: &str,
+	) -> Result<crate::verif::VerifTicket, lightning::io::Error> {
+		self.inner.verif_begin(primary_namespace, secondary_namespace, key, "write", true)
+	}
+
+	/// First (synchronous) half of [`KVStore::remove`].
+	///
+	/// [`KVStore::remove`]: lightning::util::persist::KVStore::remove
+	pub fn verif_begin_remove(
+		&self, primary_namespace: &str, secondary_namespace: &str, key: &str,
+	) -> Result<crate::verif::VerifTicket, lightning::io::Error> {
+		self.inner.verif_begin(primary_namespace, secondary_namespace, key, "remove", true)
+	}
+
+	/// Second half of a write: what the future executes on the blocking pool.
+	pub fn verif_finish_write(
+		&self, ticket: crate::verif::VerifTicket, buf: Vec<u8>,
+	) -> Result<(), lightning::io::Error> {
+		self.inner.verif_finish_write(ticket, buf)
+	}
+
+	/// Second half of a removal: what the future executes on the blocking pool.
+	pub fn verif_finish_remove(
+		&self, ticket: crate::verif::VerifTicket, lazy: bool,
+	) -> Result<(), lightning::io::Error> {
+		self.inner.verif_finish_remove(ticket, lazy)
+	}
+
+	/// Number of entries in the per-path lock map.
+	pub fn verif_state_size(&self) -> usize {
+		self.inner.verif_state_size()
+	}
+}
+
 /// The fixed page size for paginated listing operations.
 pub(crate) const PAGE_SIZE: usize = 50;
 
